@@ -792,3 +792,30 @@ Proof.
   - destruct H as [H|H]; subst xf; [contradiction|left; reflexivity].
   - right. apply IH; assumption.
 Qed.
+
+(* ================= a concrete stream for the Examples beside the theorems ================= *)
+
+(* six 188-byte packets on PID 256, units of two packets (PUSI on every other one) *)
+Definition ex18_pkt (start : bool) (cc : Z) : list Z :=
+  [71; (if start then 65 else 1); 0; 16 + cc] ++ [0; 0; 1; 224; 0; 0; 128; 0; 0] ++ repeat 170 175%nat.
+Definition ex18_stream : list Z :=
+  ex18_pkt true 0 ++ ex18_pkt false 1 ++ ex18_pkt true 2 ++ ex18_pkt false 3 ++ ex18_pkt true 4 ++ ex18_pkt false 5.
+
+(* a PacketsParser that turns every group into two data (so that NextData leaves one in the data buffer) *)
+Definition ex18_marker (pid : Z) : DemuxerData :=
+  {| DemuxerData_EIT := None; DemuxerData_FirstPacket := None; DemuxerData_NIT := None; DemuxerData_PAT := None;
+     DemuxerData_PES := None; DemuxerData_PID := pid; DemuxerData_PMT := None; DemuxerData_SDT := None;
+     DemuxerData_TOT := None |}.
+Definition ex18_prs : option custom_parser := Some (fun ps => Ok ([ex18_marker 1; ex18_marker 2], true)).
+
+(* class of a result: 100 packet, 200 + PID datum, error code, -2 panic *)
+Definition dres_class (x : dres) : Z :=
+  match x with Ok (inl _) => 100 | Ok (inr d) => 200 + DemuxerData_PID d | Err c => c | Panic => -2 end.
+
+Definition ex18_run (k : rkind) (opt : Z) (fault : option Z) (cs : list dcall) : list Z :=
+  map dres_class (calls full_parsers ex18_prs no_skip cs (init_dstate (new_reader ex18_stream fault k) opt)).
+
+Lemma ex18_stream_ok : bytes_ok ex18_stream.
+Proof. apply bytes_okb_ok. vm_compute. reflexivity. Qed.
+Lemma ex18_prs_no_panic : parser_no_panic ex18_prs.
+Proof. intros ps. discriminate. Qed.
